@@ -18,6 +18,10 @@ import (
 	"errors"
 )
 
+// maxNestingDepth bounds the recursion of the term and relation parsers. A statement nested deeper than this is reported
+// as unparseable (not idempotent) instead of overflowing the goroutine stack, which would terminate the process.
+const maxNestingDepth = 128
+
 type termType int
 
 const (
@@ -58,6 +62,11 @@ const (
 // type: identifier | identifier '<' type '>'
 //
 func parseTerm(l *lexer, t token) (idempotent bool, typ termType, err error) {
+	if l.depth++; l.depth > maxNestingDepth {
+		return false, termInvalid, errors.New("term is nested too deeply")
+	}
+	defer func() { l.depth-- }()
+
 	switch t {
 	case tkInteger: // Integer lister
 		return true, termIntegerLiteral, nil
